@@ -354,3 +354,60 @@ Example closest_k_example :
   List.length (closest_k_value_local_peers sha256 me 5 table) = 5%nat /\
   hd [] (closest_k_value_local_peers sha256 me 5 table) = me.
 Proof. vm_compute. repeat split; reflexivity. Qed.
+
+(* ================================================================== respond_x_closest_record_proof *)
+
+Section ChunkProofs.
+  Variable H : bytes -> N.
+
+  Definition target_dist (target : addr) (k : bytes) : N := distance H target (from_record_key k).
+
+  (* filter-then-take: the answers are the min(X, #chunks) nearest CHUNKS in ascending distance, whatever other
+     kinds of records lie in between *)
+  Lemma x_closest_chunks_spec_lemma target difficulty records :
+    let chunks := map fst (filter is_chunk records) in
+    let out := x_closest_chunks H target difficulty records in
+    out = firstn (N.to_nat (workload_factor difficulty)) (sort_by (target_dist target) chunks) /\
+    sorted_by (target_dist target) out /\
+    N.of_nat (List.length out) = N.min (workload_factor difficulty) (N.of_nat (List.length chunks)) /\
+    (forall k, In k out -> In (k, 0) records) /\
+    (exists rest, Permutation (out ++ rest) chunks /\
+       forall x y, In x out -> In y rest -> target_dist target x <= target_dist target y).
+  Proof.
+    cbn zeta. unfold x_closest_chunks. rewrite sort_on_eq.
+    set (chunks := map fst (filter is_chunk records)).
+    split; [reflexivity|]. split; [apply sorted_firstn, sort_by_sorted|].
+    split; [rewrite firstn_length, sort_by_length; lia|]. split.
+    - intros k Hk.
+      assert (Hin : In k (sort_by (target_dist target) chunks)).
+      { rewrite <- (firstn_skipn (N.to_nat (workload_factor difficulty))). apply in_or_app. left. exact Hk. }
+      apply sort_by_in in Hin. subst chunks. apply in_map_iff in Hin as ([k' t] & <- & Hf).
+      apply filter_In in Hf as [Hr Hc]. unfold is_chunk in Hc. cbn [snd fst] in *. apply N.eqb_eq in Hc. subst t. exact Hr.
+    - exists (skipn (N.to_nat (workload_factor difficulty)) (sort_by (target_dist target) chunks)).
+      split; [rewrite firstn_skipn; apply sort_by_perm|apply sorted_firstn_le_skipn, sort_by_sorted].
+  Qed.
+End ChunkProofs.
+
+(* the swapped order is a different function: with a scratchpad among the nearest records it answers fewer
+   chunks and leaves out chunks that belong to the X nearest *)
+Definition cp_target : addr := AChunk (repeat 7 32).
+Definition cp_records : list (bytes * N) :=
+  let order := sort_on (fun k => distance sha256 cp_target (from_record_key k)) (map ex_key [1; 2; 3; 4; 5; 6; 7; 8]) in
+  map (fun ik => (snd ik, if (fst ik =? 1) || (fst ik =? 3) then 1 else 0))
+      (combine [0; 1; 2; 3; 4; 5; 6; 7] order).
+
+Lemma take_then_filter_refuted_lemma :
+  exists target difficulty records,
+    take_then_filter_chunks sha256 target difficulty records <> x_closest_chunks sha256 target difficulty records /\
+    (List.length (take_then_filter_chunks sha256 target difficulty records) <
+     List.length (x_closest_chunks sha256 target difficulty records))%nat.
+Proof.
+  exists cp_target, 5, cp_records. split; [vm_compute; discriminate|vm_compute; lia].
+Qed.
+
+Example x_closest_chunks_example :
+  List.length (x_closest_chunks sha256 cp_target 5 cp_records) = 5%nat /\
+  List.length (take_then_filter_chunks sha256 cp_target 5 cp_records) = 3%nat /\
+  List.length (x_closest_chunks sha256 cp_target 2 cp_records) = 2%nat /\
+  List.length (x_closest_chunks sha256 cp_target 9 cp_records) = 5%nat.
+Proof. vm_compute. repeat split; reflexivity. Qed.
